@@ -140,14 +140,16 @@ type Spec struct {
 	CType  string
 	Attr   string // i0..i3 | m | p<n> | o<n>
 	Val    string // s<n> | r<id>
-	Date   int64  // claim/del: claim date, unix seconds
+	Date   int64  // claim/del: claim date, unix nanoseconds
 	Target int    // del
 	Parts  []Part // bytes/file
 	Name   int    // file/dir: name token
-	MTime  int64  // file: unixMtime seconds, 0 = none
+	MTime  int64  // file: unixMtime in unix nanoseconds, 0 = none
 	SSet   int    // dir: id of the static-set blob
 	Merge  bool   // sset: Refs are mergeSets (else members)
 	Refs   []int  // sset
+
+	sizeGiven int // opaque: the size asked for (Size is overwritten by a rebuild)
 
 	// derived by building the real blob (the def line carries them; the exec verifies them)
 	Size  int
@@ -395,7 +397,7 @@ func (w *World) Add(s *Spec) error {
 		default:
 			return fmt.Errorf("bad claim type")
 		}
-		bb.SetClaimDate(time.Unix(s.Date, 0).UTC())
+		bb.SetClaimDate(time.Unix(0, s.Date).UTC())
 		if tb, err = signBlob(sg, bb); err != nil {
 			return err
 		}
@@ -409,7 +411,7 @@ func (w *World) Add(s *Spec) error {
 			return err
 		}
 		bb := schema.NewDeleteClaim(t)
-		bb.SetClaimDate(time.Unix(s.Date, 0).UTC())
+		bb.SetClaimDate(time.Unix(0, s.Date).UTC())
 		if tb, err = signBlob(sg, bb); err != nil {
 			return err
 		}
@@ -422,7 +424,7 @@ func (w *World) Add(s *Spec) error {
 		if s.Kind == "file" {
 			m["fileName"] = NameString(s.Name)
 			if s.MTime != 0 {
-				m["unixMtime"] = schema.RFC3339FromTime(time.Unix(s.MTime, 0))
+				m["unixMtime"] = schema.RFC3339FromTime(time.Unix(0, s.MTime))
 			}
 		}
 		js, err := json.Marshal(m)
